@@ -74,8 +74,8 @@ type Rec struct {
 	NoData  bool // the application did not look at the payload at all
 	Hdr     ws.Header
 	HasHdr  bool
-	HdrAt   int // transport bytes consumed when the header was handed over (-1 unknown)
-	EndAt   int // transport bytes consumed when the unit was complete (-1 unknown)
+	HdrAt   int  // transport bytes consumed when the header was handed over (-1 unknown)
+	EndAt   int  // transport bytes consumed when the unit was complete (-1 unknown)
 	Short   bool // 'I': the handler's reader ended cleanly before Hdr.Length bytes
 	Failed  bool // handed over by an API call that then returned an error (ReadMessage)
 }
@@ -389,12 +389,12 @@ func appReadFrame(r *eng.Run, p *Pipe, cfg ReadCfg, o *Outcome) {
 
 // Exp is one expected record with the wire offsets that bound it.
 type Exp struct {
-	Kind   byte
-	Op     byte
-	Data   []byte
-	First  *ref.Frame // frame whose header the application is handed (nil if none)
-	EndOff int        // wire offset at which the unit is complete
-	CallEnd int       // wire offset at which the API call that hands it over returns
+	Kind    byte
+	Op      byte
+	Data    []byte
+	First   *ref.Frame // frame whose header the application is handed (nil if none)
+	EndOff  int        // wire offset at which the unit is complete
+	CallEnd int        // wire offset at which the API call that hands it over returns
 }
 
 func wanted(cfg ReadCfg, op byte) bool {
